@@ -265,3 +265,64 @@ Example reset_counter_unbounded :
   exists s, brun_reset c binit [Attempt 1; Tick 2; Attempt 1; Tick 2; Attempt 1; Tick 2; Attempt 1] = Some s
             /\ started_in 0 50 (b_atts s) = 4.
 Proof. vm_compute. eexists. split; reflexivity. Qed.
+
+(* ---------- an attempt outside the window is forgotten ---------- *)
+(* accepted attempts whose decrement timer (attempt time + delay + MaxRetriesWindow) has not come due yet *)
+Definition pending (c : bcfg) (s : bst) : Z :=
+  Z.of_nat (length (filter (fun x => b_now s <? a_time x + a_delay x + b_window c) (b_atts s))).
+
+(* every decrement timer that is due has fired (timers are never early - [binv] - and here: not late) *)
+Definition timers_fired (c : bcfg) (s : bst) : Prop :=
+  Forall (fun x => a_time x + a_delay x + b_window c <= b_now s -> a_dec x = true) (b_atts s).
+
+Lemma undec_le_pending c s : timers_fired c s -> undec (b_atts s) <= pending c s.
+Proof.
+  unfold timers_fired, undec, pending. intros H. induction (b_atts s) as [|x l IH]; simpl; [lia|].
+  inversion H as [|y l' Hy Hl]; subst. specialize (IH Hl).
+  destruct (a_dec x) eqn:Ed; simpl.
+  - destruct (b_now s <? a_time x + a_delay x + b_window c); cbn [length]; lia.
+  - destruct (b_now s <? a_time x + a_delay x + b_window c) eqn:E; cbn [length]; [lia|].
+    exfalso. assert (Hx : false = true) by (apply Hy; lia). discriminate.
+Qed.
+
+(* in every reachable state of the back-off in which nothing was refused so far: when fewer than MaxRetries
+   accepted attempts are still inside their window, the next attempt is accepted *)
+Theorem attempt_outside_window_is_forgotten c s d s' o :
+  binv c s -> b_refused s = 0 -> timers_fired c s -> pending c s < b_maxretries c ->
+  bstep c s (Attempt d) = Some (s', o) -> exists n, o = OAccepted n d.
+Proof.
+  intros HI Hr Ht Hp H. pose proof (i_ctr c s HI) as Hc. pose proof (undec_le_pending c s Ht) as Hu.
+  simpl in H. unfold refuses in H.
+  replace (negb (b_maxretries c =? -1) && (b_maxretries c <? b_ctr s + 1)) with false in H by lia.
+  destruct (delay_ok c (b_ctr s + 1) d); inversion H. eauto.
+Qed.
+
+(* the variant in which a restarted run gets a COPY of the counter (the decrement timers of earlier
+   attempts act on the dead run's counter): attempts are never forgotten *)
+Definition bstep_byvalue (c : bcfg) (s : bst) (e : bev) : option (bst * bout) :=
+  match e with
+  | Dec i => match bstep c s e with
+             | Some (s', o) => Some (mkBst (b_now s') (b_ctr s) (b_atts s') (b_refused s'), o)
+             | None => None
+             end
+  | _ => bstep c s e
+  end.
+
+Fixpoint brun_with (step : bcfg -> bst -> bev -> option (bst * bout)) (c : bcfg) (s : bst) (evs : list bev)
+  : option (bst * list bout) :=
+  match evs with
+  | [] => Some (s, [])
+  | e :: r => match step c s e with
+              | Some (s', o) => match brun_with step c s' r with Some (s'', os) => Some (s'', o :: os) | None => None end
+              | None => None
+              end
+  end.
+
+(* MaxRetries 1, window 20: two failures 100 apart. The code accepts the second attempt; the by-value
+   variant refuses it *)
+Example by_value_counter_refuses_isolated_failure :
+  let c := mkBcfg 1 5 2 1 20 in
+  let evs := [Attempt 1; Tick 1; Wake 0; Tick 100; Dec 0; Attempt 1] in
+  (match brun_with bstep c binit evs with Some (_, os) => last os OTick | None => OTick end = OAccepted 1 1)
+  /\ (match brun_with bstep_byvalue c binit evs with Some (_, os) => last os OTick | None => OTick end = ORefused 2).
+Proof. vm_compute. split; reflexivity. Qed.
